@@ -2,7 +2,7 @@
 # Apply each benign (behaviour-preserving) patch to a SCRATCH copy of /repo/src (VERIF_REPO), run all checks,
 # expect exit 0 or 2 (never 1: a VIOLATION on behaviour-preserving code would be a false alarm).
 S=$(mktemp -d /tmp/benign_scratch.XXXX)
-for d in /verif/seeded/benign/p*.diff; do
+for d in /verif/seeded/${BENIGN_DIR:-benign}/p*.diff; do
   n=$(basename $d .diff)
   rm -rf $S/src; cp -r /repo/src $S/src
   (cd $S && patch -p1 -s < $d) || { echo "$n: does not apply"; continue; }
